@@ -326,10 +326,14 @@ func TestC15(t *testing.T) {
 		if useSeek && len(gets) > 0 && gets[0].key < seekKey {
 			f.failf("iterator-seek", "Seek(%d) landed on %d\n%s", seekKey, gets[0].key, desc())
 		}
-		w.walkCheck("quiescent-")
+		res := w.walkCheck("quiescent-")
 		if mm {
 			if rep := w.arena.Report(); len(rep.Bad) > 0 {
 				f.failf("bad-free", "allocator: %v", rep)
+			}
+			// the reader closed its iterator and every mutator finished: nothing unlinked may be left unfreed
+			if live := w.arena.LiveCount(); live != res.Level0Linked+2 {
+				f.failf("unlinked-not-freed", "at quiescence (iterator closed) the allocator holds %d live blocks, %d nodes are linked (+2 sentinels)", live, res.Level0Linked)
 			}
 		}
 		st.Case(f.desc(), cursorDeleted)
